@@ -204,6 +204,9 @@ def import_geogram_ascii(path):
             adj_cell._expand(container_sizes[Chunk.Container.CELL_FACETS])
             import_attribute(chk, adj_cell)
 
+        elif chk.name == "\"GEO::Mesh::facets::facet_ptr\"" or chk.name == "\"GEO::Mesh::cells::cell_ptr\"":
+            continue # already used to build the facet / cell index : not a user attribute
+
         else: # user defined attribute
             container = {
                 Chunk.Container.VERTICES : outmesh.vertices,
